@@ -122,6 +122,8 @@ impl<E: 'static + Send> Task<E> {
     pub(super) fn run_blocking<T>(self, f: impl FnOnce() -> Result<T, E>) -> Result<T, Terminated> {
         let panic_reporter = PanicReporter::new(self);
         let res = f();
+        #[cfg(era_consensus_verif)]
+        crate::verif::preempt();
         let this = panic_reporter.defuse();
         match res {
             Ok(v) => Ok(v),
